@@ -206,6 +206,12 @@ pub trait WriteableGraph {
     fn staged_created_nodes_with_labels(&self) -> Vec<(InternalNodeId, Vec<String>)> {
         Vec::new()
     }
+
+    /// Relationships created in this transaction, and not deleted since, that start or end
+    /// at `node`. No snapshot shows them yet.
+    fn staged_edges(&self, _node: InternalNodeId) -> Vec<EdgeKey> {
+        Vec::new()
+    }
 }
 
 pub use nervusdb_storage::property::PropertyValue;
